@@ -252,20 +252,49 @@ def _alarm(signum, frame):
     raise _CaseTimeout()
 
 
+def _raised_in_implementation(exc: BaseException) -> bool:
+    """is the deepest frame that belongs either to the harness or to the tree under test a frame of the tree?"""
+    here = os.path.dirname(os.path.abspath(__file__))
+    repo = os.path.abspath(REPO)
+    last = None
+    tb = exc.__traceback__
+    while tb is not None:
+        f = os.path.abspath(tb.tb_frame.f_code.co_filename)
+        if f.startswith(here + os.sep):
+            last = "harness"
+        elif f.startswith(repo + os.sep):
+            last = "impl"
+        tb = tb.tb_next
+    return last == "impl"
+
+
 def _pool_run(batch):
     import signal
     res = []
     signal.signal(signal.SIGALRM, _alarm)
     for case in batch:
+        forced = None
         try:
             signal.alarm(_PROP.case_timeout)
             out = _PROP.impl(case)
         except _CaseTimeout:
-            out = f"HARNESS-CRASH case timeout after {_PROP.case_timeout}s"
-        except Exception:  # adapter failure (not an implementation error): surfaced, exit 2
-            out = "HARNESS-CRASH " + traceback.format_exc()[-800:].replace("\n", " | ")
+            # the implementation did not answer: a failing input (cases take milliseconds)
+            out = f"IMPL-TIMEOUT no result after {_PROP.case_timeout}s"
+            forced = ("no-result-within-timeout", out)
+        except Exception as exc:
+            tb = traceback.format_exc()[-800:].replace("\n", " | ")
+            if _raised_in_implementation(exc):
+                # an exception class the adapter does not expect, raised by the code under test
+                # (AttributeError, NotImplementedError, UnboundLocalError ...): the code crashed on this input
+                out = f"IMPL-EXCEPTION {type(exc).__name__}: {str(exc)[:200]}".replace("\n", " ")
+                forced = ("unexpected-exception:" + type(exc).__name__, out + " || " + tb)
+            else:  # adapter failure (not an implementation error): surfaced, exit 2
+                out = "HARNESS-CRASH " + tb
         finally:
             signal.alarm(0)
+        if forced is not None:
+            res.append((out, forced if case.claimed else None, False))   # outside the claim domain: not binding
+            continue
         try:
             orc = _PROP.oracle(case, out)
         except Exception:
